@@ -203,5 +203,9 @@ func (p *contractPayment) OpSettle(account store.Account, paymentAmount *big.Int
 	if err != nil {
 		return "", err
 	}
+	// The deposit that was just paid out must not be served from the cache
+	// anymore. The Balance event only arrives once the transaction is mined,
+	// a withdrawal repeated before that would be paid the same deposit again.
+	p.balanceCache.Set(account, new(big.Int).Set(newBalance))
 	return txn.Hash().Hex(), nil
 }
